@@ -30,8 +30,12 @@ RULE = ("exhaustive: every tree with <=3 (quick) / <=4 (thorough) nodes below a 
         "constructor configurations) generated from a grammar incl. script/style/template/ruby, comments, CDATA, "
         "doctype, declarations, PIs and malformed markup; seeded random edit histories (quick 400 x 12 steps, "
         "thorough 3000 x 20) with strings of all 15 classes and tags with custom interesting_string_types, queried "
-        "after every step. Non-trivial: the element has >=1 string beneath it. Distinct by (recipe, history, query).")
+        "after every step; written documents with generator ground truth (class and text of every string; the CDATA "
+        "keyword in all 32 letter-case spellings); the text generators consumed step by step while the consumer replaces / "
+        "extracts / wraps the string just handed out (every exhaustive tree's root, random elements of parsed and edited "
+        "trees) against the list taken before the loop. Non-trivial: the element has >=1 string beneath it. Distinct by (recipe, history, query).")
 ASSUMPTIONS = [
+    "generators are modelled as lists on a fixed heap; their behaviour under edits between two steps (successor saved before the yield) is checked by the direct oracle on the implementation only",
     "Python class identity / set membership of classes interned as numbers (type(x) is c, type(x) in types)",
     "str.strip() / str.join are the interpreter's; the whitespace set is generated from the interpreter (Gen/Stdlib.v) and compared on every code point below 0x3100 (all 0x110000 in the thorough tier)",
     "the heap handed to the model is the dump of the real objects' six links (consistency = hypothesis rep of the theorems, checked on every dump)",
@@ -725,6 +729,79 @@ def sample_queries(rng, w, forms, k):
     return qs
 
 
+# ------------------------------------------------------------------------------------ generators consumed step by step
+EDIT_KINDS = ["replace_with", "extract", "wrap", "none"]
+
+
+def interleave_specs(rng, w, forms, per_world):
+    """Which generators to consume step by step on this state: (element, view, strip, types form, edit pattern)."""
+    f = w.forest
+    tags = [i for i in w.live() if isinstance(f.objs[i], Tag)]
+    specs = []
+    for _ in range(per_world):
+        if not tags:
+            break
+        x = rng.choice(tags)
+        view = rng.choice(["strings", "stripped_strings", "_all_strings", "_all_strings"])
+        strip = {"strings": False, "stripped_strings": True}.get(view, rng.random() < 0.5)
+        form = forms[0] if view != "_all_strings" else rng.choice(forms)
+        pattern = [rng.choice(EDIT_KINDS[:3]) for _ in range(rng.randint(1, 4))]
+        specs.append({"element": x, "view": view, "strip": strip, "types": form[2], "edits": pattern})
+    return specs
+
+
+def run_interleaved(ctx, recipe, spec, forms):
+    """The generators save their successor before yielding: a consumer may replace, remove or wrap the string it was just
+    handed and still receives every remaining string. Oracle: the pieces handed out one by one are the list the
+    independent evaluator gives for the tree as it was BEFORE the loop (only strings already handed out are edited, each
+    by a fresh object, so the remaining counted strings are the same objects in the same order)."""
+    w = make_world(json.loads(json.dumps(recipe)))
+    f = w.forest
+    o = f.objs[spec["element"]]
+    form = [fm for fm in forms if fm[2] == spec["types"]][0]
+    menc, how, label = form
+    strip = spec["strip"]
+    before = oracle_strings(o, strip, wanted_pred(w, o, menc))
+    exp = [t for _, t in before]
+    case = {"recipe": recipe, "interleave": spec}
+    ctx.case((hash(json.dumps(recipe, sort_keys=True)), "interleave", json.dumps(spec, sort_keys=True)), nontrivial=len(before) > 1)
+    try:
+        with warnings.catch_warnings():
+            warnings.simplefilter("ignore")
+            if spec["view"] == "strings":
+                gen = iter(o.strings)
+            elif spec["view"] == "stripped_strings":
+                gen = iter(o.stripped_strings)
+            else:
+                targs = py_types(how)
+                gen = o._all_strings(strip, types=targs[0]) if targs else o._all_strings(strip)
+            got = []
+            k = 0
+            for v in gen:
+                got.append(str(v))
+                if k < len(before):
+                    node = before[k][0]
+                    if not strip and v is not node:
+                        break                      # a different object was handed out: reported below through got != exp or ids
+                    kind = spec["edits"][k % len(spec["edits"])]
+                    if node.parent is not None:
+                        if kind == "replace_with":
+                            node.replace_with(type(node)(str(node).upper() + "!"))
+                        elif kind == "extract":
+                            node.extract()
+                        elif kind == "wrap":
+                            node.wrap(Tag(name="u"))
+                k += 1
+                if k > len(before) + 50:
+                    break
+    except Exception as e:
+        ctx.fail(case, "a text generator raised %s while its consumer edited the string just yielded" % type(e).__name__, repr(e), exp)
+        return
+    if got != exp:
+        ctx.fail(case, "a text generator consumed step by step, while the consumer replaces / removes / wraps the string it was "
+                       "just handed, must still hand out every counted string beneath the element (as listed before the loop)", got, exp)
+
+
 # ------------------------------------------------------------------------------------ parse-time classes
 def check_parsed_classes(ctx, recipe, w):
     """Unedited parse results: which class each string got, which set each tag got, and the
@@ -859,7 +936,7 @@ def gen_markup(rng, depth=0):
         elif x < 0.30:
             parts.append("<!--%s-->" % rng.choice(["c", " c c ", ""]))
         elif x < 0.38:
-            parts.append("<![CDATA[%s]]>" % rng.choice(["d", " d ", "<p>"]))
+            parts.append("<![%s[%s]]>" % (cdata_keyword(rng), rng.choice(["d", " d ", "<p>"])))
         elif x < 0.42:
             parts.append(rng.choice(["<?pi?>", "<!DOCTYPE html>", "<!ELEMENT x>", "<?xml version='1.0'?>"]))
         elif x < 0.50:
@@ -886,6 +963,83 @@ def gen_markup(rng, depth=0):
         else:
             parts.append(rng.choice(["x", "y"]))
     return "".join(parts)
+
+
+# ------------------------------------------------------------------------------------ written documents (ground truth)
+def cdata_keyword(rng=None, k=None):
+    """'CDATA' with each letter in either case: index k in 0..31, or random."""
+    if k is None:
+        k = rng.randrange(32)
+    return "".join(ch.lower() if (k >> i) & 1 else ch for i, ch in enumerate("CDATA"))
+
+
+def write_doc(rng, conts, depth=0, inside=None, truth=None, kw=None):
+    """Writes a well-formed document piece by piece and records what it says: the strings, in document order, as
+    (class id, text). Text inside a container element gets the container's class (nearest one); comments, CDATA sections
+    (keyword spelled in any letter case) and doctypes keep theirs. Returns the markup."""
+    parts = []
+    last_text = False
+    for _ in range(rng.randint(1, 4 if depth else 6)):
+        x = rng.random()
+        if x < 0.3 and not last_text:
+            t = rng.choice(["", " ", "  "]) + rng.choice(["x", "yz", "a b", "q1", "é", "w\xa0v"]) + rng.choice(["", " ", "\n"])
+            parts.append(t)
+            truth.append([inside if inside is not None else NAV, t])
+            last_text = True
+            continue
+        if x < 0.5:
+            t = rng.choice(["d", " d ", "<q>", "a]b", "x > y", "e&amp;f", "D\nE"])
+            parts.append("<![%s[%s]]>" % (kw() if kw else cdata_keyword(rng), t))
+            truth.append([CDATA, t])
+        elif x < 0.6:
+            t = rng.choice(["c", " c c ", "x-y"])
+            parts.append("<!--%s-->" % t)
+            truth.append([COMMENT, t])
+        elif x < 0.64:
+            parts.append("<!DOCTYPE html>")
+            truth.append([6, "html"])
+        elif x < 0.72:
+            name = rng.choice(["script", "style"])
+            t = rng.choice(["s", "var a = 1;", "p { }", " k "])
+            parts.append("<%s>%s</%s>" % (name, t, name))
+            truth.append([conts.get(name, inside if inside is not None else NAV), t])
+        elif depth < 3:
+            name = rng.choice(["div", "p", "b", "span", "i", "u", "template", "rt"])
+            sub = conts.get(name, inside)
+            parts.append("<%s>%s</%s>" % (name, write_doc(rng, conts, depth + 1, sub, truth, kw), name))
+        else:
+            continue
+        last_text = False
+    return "".join(parts)
+
+
+def written_recipe(rng, config, kw=None):
+    conf = MARKUP_CONFIGS[config]
+    conts = dict(conf["containers"]) if "containers" in conf else {k: CID[v] for k, v in DOC_CONTAINERS.items()}
+    truth = []
+    markup = write_doc(rng, conts, 0, None, truth, kw)
+    return {"kind": "markup", "config": config, "markup": markup, "truth": truth}
+
+
+def check_truth(ctx, recipe, w):
+    """A written document: the strings of the parsed tree, in document order with their classes, are the ones the markup
+    spells out; an explicit types=CData selects exactly the CDATA sections' contents."""
+    truth = [(c, t) for c, t in recipe["truth"]]
+    got = [(CID.get(type(o), -1), str(o)) for o in T.preorder(w.soup) if not isinstance(o, Tag)]
+    case = {"recipe": recipe}
+    if got != truth:
+        k = next((i for i, (a, b) in enumerate(zip(got, truth)) if a != b), min(len(got), len(truth)))
+        ctx.fail(dict(case, position=k), "the strings of the parsed document are not the ones the markup spells out (class id, text)",
+                 got[max(0, k - 1):k + 2], truth[max(0, k - 1):k + 2])
+        return
+    exp = [t for c, t in truth if c == CDATA]
+    sel = [str(x) for x in w.soup._all_strings(types=CData)]
+    if sel != exp:
+        ctx.fail(dict(case, query={"element": 0, "types": "CData"}), "types=CData must select exactly the CDATA sections", sel, exp)
+    txt = w.soup.get_text("|", types=(CData,))
+    if txt != "|".join(exp):
+        ctx.fail(dict(case, query={"element": 0, "types": "(CData,)"}), "get_text(types=(CData,)) must join exactly the CDATA sections", txt, "|".join(exp))
+
 
 
 FIXED_MARKUP = [
@@ -1074,6 +1228,11 @@ def run_exhaustive(ctx):
                 recipe = {"kind": "nested", "tree": tree}
                 w = make_world(recipe)
                 batch.add(recipe, w, all_queries(w, forms, seps))
+                if kids:
+                    for spec in ({"element": 0, "view": "strings", "strip": False, "types": forms[0][2], "edits": ["replace_with"]},
+                                 {"element": 0, "view": "_all_strings", "strip": False, "types": "None", "edits": ["extract"]},
+                                 {"element": 0, "view": "stripped_strings", "strip": True, "types": forms[0][2], "edits": ["wrap", "replace_with"]}):
+                        run_interleaved(ctx, recipe, spec, forms)
                 ndocs += 1
                 if len(batch.items) >= 300:
                     batch.flush()
@@ -1154,6 +1313,12 @@ def run_parsed(ctx):
             recipes.append({"kind": "markup", "config": name, "markup": m})
     for _ in range(1500 if ctx.thorough else 350):
         recipes.append({"kind": "markup", "config": rng.choice(list(MARKUP_CONFIGS)), "markup": gen_markup(rng)})
+    # written documents (the generator knows what the markup says); the CDATA keyword in each of its 32 spellings
+    for k in range(32):
+        recipes.append({"kind": "markup", "config": "default", "markup": "<p>a<![%s[x%d]]>b</p>" % (cdata_keyword(k=k), k),
+                        "truth": [[NAV, "a"], [CDATA, "x%d" % k], [NAV, "b"]]})
+    for _ in range(1200 if ctx.thorough else 300):
+        recipes.append(written_recipe(rng, rng.choice(["default", "default", "no-containers", "custom-containers"])))
     for cname in CFGS:
         for evs in FIXED_EVENTS:
             recipes.append({"kind": "events", "cfg": cname, "events": jsonable_events(evs)})
@@ -1163,6 +1328,10 @@ def run_parsed(ctx):
     for k, recipe in enumerate(recipes):
         w = make_world(recipe)
         check_parsed_classes(ctx, recipe, w)
+        if "truth" in recipe:
+            check_truth(ctx, recipe, w)
+        for spec in interleave_specs(rng, w, forms, 2):
+            run_interleaved(ctx, recipe, spec, forms)
         if recipe["kind"] == "events":
             built.append((recipe, w))
         batch.add(recipe, w, sample_queries(rng, w, forms, 30 if ctx.thorough else 14))
@@ -1201,6 +1370,8 @@ def run_histories(ctx):
                 ctx.fail({"recipe": json.loads(json.dumps(recipe))}, st[7:], None, None)
             snap = json.loads(json.dumps(recipe))
             batch.add(snap, w, sample_queries(rng, w, forms, 6))
+        for spec in interleave_specs(rng, w, forms, 2):
+            run_interleaved(ctx, json.loads(json.dumps(recipe)), spec, forms)
         if len(batch.items) >= 300:
             batch.flush()
         if k % 97 == 0:
@@ -1311,7 +1482,12 @@ def replay(ctx, data):
         print("tree:", T.impl_shape(root))
     if w.parsed:
         check_parsed_classes(c, recipe, w)
+        if "truth" in recipe:
+            check_truth(c, recipe, w)
     forms = types_forms()
+    if "interleave" in f:
+        print("consumed step by step:", json.dumps(f["interleave"]))
+        run_interleaved(c, recipe, f["interleave"], forms)
     q = f.get("query")
     if q and "strip" in q:
         form = [fm for fm in forms if fm[2] == q["types"]]
@@ -1322,7 +1498,7 @@ def replay(ctx, data):
     b.add(recipe, w, qs)
     for x in c.failures[:5]:
         print("FAIL:", x["what"])
-        print("  query   :", x["case"].get("query"), x["case"].get("element"))
+        print("  query   :", x["case"].get("query") or x["case"].get("interleave") or {k: v for k, v in x["case"].items() if k != "recipe"})
         print("  observed:", x["observed"])
         print("  expected:", x["expected"])
     if not c.failures:
